@@ -637,6 +637,60 @@ def register2(M):
         return [(k, list(g)) for k, g in out]
     E['itertools.groupby'] = groupby
 
+    # ---- itertools / operator / functools on interpreter values (stdlib; results are materialised lists) --------------------
+    import itertools as _it
+
+    def _lists(interp, args, node):
+        return [list(interp.iterate(a, node)) for a in args]
+    E['itertools.product'] = lambda it, a, k, n: [tuple(t) for t in _it.product(*_lists(it, a, n), repeat=k.get('repeat', 1))]
+    E['itertools.chain'] = lambda it, a, k, n: [x for l in _lists(it, a, n) for x in l]
+    E['itertools.chain.from_iterable'] = lambda it, a, k, n: [x for l in it.iterate(a[0], n) for x in it.iterate(l, n)]
+    E['itertools.zip_longest'] = lambda it, a, k, n: [tuple(t) for t in _it.zip_longest(*_lists(it, a, n), fillvalue=k.get('fillvalue'))]
+    E['itertools.permutations'] = lambda it, a, k, n: [tuple(t) for t in _it.permutations(list(it.iterate(a[0], n)), *a[1:])]
+    E['itertools.combinations'] = lambda it, a, k, n: [tuple(t) for t in _it.combinations(list(it.iterate(a[0], n)), a[1])]
+    E['itertools.pairwise'] = lambda it, a, k, n: [tuple(t) for t in _it.pairwise(list(it.iterate(a[0], n)))]
+    E['itertools.repeat'] = lambda it, a, k, n: ([a[0]] * a[1] if len(a) > 1 else (_ for _ in ()).throw(AnalysisError('unbounded itertools.repeat', n)))
+    E['itertools.starmap'] = lambda it, a, k, n: [it.call(a[0], list(it.iterate(t, n)), {}, n) for t in it.iterate(a[1], n)]
+    E['itertools.islice'] = lambda it, a, k, n: list(_it.islice(list(it.iterate(a[0], n)), *a[1:]))
+    E['itertools.compress'] = lambda it, a, k, n: [x for x, c in zip(it.iterate(a[0], n), it.iterate(a[1], n)) if it.truth(c, n) is True]
+    E['itertools.takewhile'] = lambda it, a, k, n: list(_it.takewhile(lambda x: it.truth(it.call(a[0], [x], {}, n), n) is True, list(it.iterate(a[1], n))))
+    E['itertools.dropwhile'] = lambda it, a, k, n: list(_it.dropwhile(lambda x: it.truth(it.call(a[0], [x], {}, n), n) is True, list(it.iterate(a[1], n))))
+    E['itertools.filterfalse'] = lambda it, a, k, n: [x for x in it.iterate(a[1], n) if it.truth(it.call(a[0], [x], {}, n) if a[0] is not None else x, n) is not True]
+
+    def _accumulate(interp, args, kw, node):
+        items = list(interp.iterate(args[0], node))
+        f = args[1] if len(args) > 1 else kw.get('func')
+        out = []
+        for x in items:
+            out.append(x if not out else (interp.call(f, [out[-1], x], {}, node) if f is not None else M.binop(interp, 'Add', out[-1], x, node)))
+        return out
+    E['itertools.accumulate'] = _accumulate
+
+    def _reduce(interp, args, kw, node):
+        items = list(interp.iterate(args[1], node))
+        if len(args) > 2:
+            acc = args[2]
+        elif items:
+            acc, items = items[0], items[1:]
+        else:
+            raise AbsRaise(ExcVal('TypeError', ('reduce() of empty iterable with no initial value',)), node)
+        for x in items:
+            acc = interp.call(args[0], [acc, x], {}, node)
+        return acc
+    E['functools.reduce'] = _reduce
+    for _nm, _op in (('lt', 'Lt'), ('le', 'LtE'), ('gt', 'Gt'), ('ge', 'GtE'), ('eq', 'Eq'), ('ne', 'NotEq'), ('is_', 'Is'), ('is_not', 'IsNot')):
+        E['operator.' + _nm] = (lambda it, a, k, n, _op=_op: M.compare(it, _op, a[0], a[1], n))
+    E['operator.contains'] = lambda it, a, k, n: M.compare(it, 'In', a[1], a[0], n)
+    for _nm, _op in (('and_', 'BitAnd'), ('or_', 'BitOr'), ('xor', 'BitXor'), ('matmul', 'MatMult')):
+        E['operator.' + _nm] = (lambda it, a, k, n, _op=_op: M.binop(it, _op, a[0], a[1], n))
+    E['operator.not_'] = lambda it, a, k, n: (lambda t: (not t) if isinstance(t, bool) else (_ for _ in ()).throw(AnalysisError('operator.not_ on an undecided value', n)))(it.truth(a[0], n))
+    E['operator.invert'] = E['operator.inv'] = lambda it, a, k, n: M.unaryop(it, 'Invert', a[0], n)
+    E['operator.pos'] = lambda it, a, k, n: a[0]
+    E['operator.abs'] = lambda it, a, k, n: it.call(ExtRef('builtins.abs'), [a[0]], {}, n)
+    E['operator.getitem'] = lambda it, a, k, n: M.getitem(it, a[0], a[1], n)
+    E['operator.truth'] = lambda it, a, k, n: it.truth(a[0], n)
+    E['operator.methodcaller'] = lambda it, a, k, n: PyCallable(lambda it2, a2, k2, n2, _nm=a[0], _a=a[1:], _k=k: it2.call(it2.getattr(a2[0], _nm, n2), list(_a), dict(_k), n2), 'methodcaller')
+
     # transcendental functions: uninterpreted (exact arithmetic cannot evaluate them); identity is structural
     def uninterpreted(name):
         def f(interp, args, kw, node):
